@@ -42,7 +42,9 @@ RULE = ("Three case kinds. (interp, 84 %) geometry (dense 3B2 / NP2.1 / NP2.4 (s
         "the drawn cases a second call: either the same array object again (same labels required), or - before the checked "
         "call - the same recording with the channels reversed, whose returned labels and features must still be intact "
         "afterwards. file: the recording given as Path, str or an open Reader (which must return the same samples after the "
-        "call and, in a third of these cases, the same labels from a second call on it); the harness' per-batch copies are "
+        "call and, in a third of these cases, the same labels from a second call on it); every file case also scans a single "
+        "batch (n_batches=1) with the file named in the other way (str / Path), expecting the labels injected into the first "
+        "batch; the harness' per-batch copies are "
         "contiguous arrays or read-only column views of the whole recording. "
         "Non-trivial = interp: a bad channel with another bad channel inside its neighbourhood or at an end of the "
         "array; detect/file: at least one fault at a drawn position. Distinct = distinct case hash.")
@@ -954,6 +956,13 @@ def _run_file(case, ctx):
                 ctx.call("C15.file.reader", sr.close)
         else:
             got = ctx.call("C15.file", v.detect_bad_channels_cbin, str(path) if inp == "str" else path, **kw)
+        # one more scan of a single batch (n_batches=1: the first batch_duration seconds), the file named in the other way
+        # (str unless the main call had a str) - the price of one detect_bad_channels call
+        kw1 = {"n_batches": 1} if bd == 0.3 else {"n_batches": 1, "batch_duration": bd}
+        got1 = ctx.call("C15.file", v.detect_bad_channels_cbin, path if inp == "str" else str(path), **kw1)
+    if got1 is not ctx.CRASH:
+        _compare(ctx, np.asarray(got1).reshape(-1) if np.size(got1) == nc else np.asarray(got1), [{int(e)} for e in exp_cols[:, 0]], {},
+                 f"single-batch scan (n_batches=1) vs the faults injected into the first batch {faults[0]}", base_kind="C15.file")
     if got is ctx.CRASH or got2 is ctx.CRASH:
         return
     got = np.asarray(got)
